@@ -401,7 +401,7 @@ func TestC19(t *testing.T) {
 				if i > 0 && c.Pool[i] == c.Pool[i-1] {
 					c.Pool[i][15] ^= byte(i)
 				}
-				c.Start[i] = drawIntervals(rt, rapid.Bool().Draw(rt, "wide"))
+				c.Start[i] = drawIntervals(rt, rapid.Bool().Draw(rt, "wide"), 0)
 			}
 			// distinct UUIDs only
 			seen := map[[16]byte]bool{}
